@@ -48,6 +48,7 @@ type Exec struct {
 	topReturns []retEdge
 	protect    []modTarget
 	topFr      *frame   // frame of the function under verification
+	cpHit      map[string]bool // call rule keys (callpre NAME) that matched at least one call site
 	lateProt   []Expr   // opt protect-local: designators over locals, evaluated at each unknown call
 	lateText   string
 	bounded    []string // loops without annotation that were unrolled to autoUnrollMax with an unwinding assertion
